@@ -60,7 +60,7 @@ def make_directed(row, case):
     astar = Mi[:, d["axis"]] / np.linalg.norm(Mi[:, d["axis"]])
     f1 = np.array([0.47, 0.31, 0.59])
     f1[d["axis"]] = 0.004 if d["side"] < 0 else 0.996
-    length = {"Cl": 1.99, "C": 1.53, "S": 2.05}[d["element"]]
+    length = d.get("length") or {"Cl": 1.99, "C": 1.53, "S": 2.05}[d["element"]]
     p1 = f1 @ M
     p2 = p1 + d["side"] * length * astar
     frac = np.array([p1, p2]) @ Mi
@@ -381,11 +381,59 @@ def tolerance_cases(part, row, seed):
     part.nstates(8)
 
 
+def radii_override_cases(part, row, seed):
+    """
+    covalent_radii= override that MAKES a bond, on a bond that crosses a cell face: Cl...Cl at 2.8 A (not bonded with the tabulated radius,
+    threshold 2.44 A) is one molecule with covalent_radii={17: 1.3} (threshold 3.0 A).  Laid perpendicular to every face, from either side,
+    listed in either order - so the overridden radius is needed for the in-cell atom, for its periodic image, for the lower and the higher index
+    """
+    sk = "%d:%s" % (row["number"], row["choice"])
+    el = mol.element_data()
+    ncell = len(lattice.compatible_cells(row["number"], row["choice"]))
+    for cv in range(min(2, ncell)):
+        for axis in (0, 1, 2):
+            for side in (-1, 1):
+                for swap in (False, True):
+                    case = {"number": row["number"], "choice": row["choice"], "zkind": "directed", "centre": [0, 0, 0], "orient": 0, "seed": seed, "cellvar": cv, "kind": "radii-override",
+                            "directed": {"axis": axis, "side": side, "element": "Cl", "swap": swap, "length": 2.8}}
+                    ops, cell, asym, imgs = make_directed(row, case)
+                    M = asym["M"]
+                    pts = np.vstack([im["frac"] for im in imgs])
+                    own = np.repeat(np.arange(len(imgs)), 2)
+                    ok = True
+                    for cellv in itertools.product((-1, 0, 1), repeat=3):
+                        dmat = np.linalg.norm(((pts + np.array(cellv))[:, None, :] - pts[None, :, :]) @ M, axis=2)
+                        other = (own[:, None] != own[None, :]) | (any(cellv) and np.ones_like(dmat, dtype=bool))
+                        if np.any((dmat < 3.0 + 0.5) & other):
+                            ok = False
+                            break
+                    if not ok:
+                        part.skip("stretched dimers too close")
+                        continue
+                    for name, kw, n_expect, size in (("override", {"covalent_radii": {17: 1.3}}, len(imgs), 2), ("default", {}, 2 * len(imgs), 1)):
+                        part.ev()
+                        part.tr()
+                        try:
+                            c = xtal.make_crystal(row["number"], row["choice"], cell, asym["symbols"], asym["frac"])
+                            mols = c.unit_cell_molecules(**kw)
+                        except Exception as e:
+                            part.fail("radii-override:raise:" + name, "unit_cell_molecules(%s) of %s raised %r" % (kw, sk, e), case)
+                            continue
+                        sizes = sorted(len(m) for m in mols)
+                        whole = all(len(m) != 2 or abs(np.linalg.norm(np.asarray(m.positions)[0] - np.asarray(m.positions)[1]) - 2.8) < 1e-6 for m in mols)
+                        if len(mols) != n_expect or sizes != [size] * n_expect or not whole:
+                            part.fail("radii-override:%s" % name, "Cl...Cl 2.8 A across the %s face of %s (side %+d, %s order) with %s: %d molecules of sizes %s, expected %d of %d atoms%s"
+                                      % ("abc"[axis], sk, side, "swapped" if swap else "natural", kw or "default radii", len(mols), sorted(set(sizes)), n_expect, size, "" if whole else " (not whole)"), case)
+                        part.outcome(("radii-override", name, axis, side, swap))
+    part.nstates(1)
+
+
 def worker(part, job, tier, seed):
     row, full = job
     if full == "override":
         override_history(part, row, seed)
         tolerance_cases(part, row, seed)
+        radii_override_cases(part, row, seed)
         return
     sk = "%d:%s" % (row["number"], row["choice"])
     n_ok = 0
@@ -433,6 +481,9 @@ def run(ctx):
 def replay(ctx, case):
     table = symm.load_table()
     for r in table:
+        if case.get("kind") == "radii-override" and r["number"] == case["number"] and r["choice"] == case["choice"]:
+            radii_override_cases(ctx, r, case.get("seed", 0))
+            return
         if case.get("kind") == "tolerance" and r["number"] == case["number"] and r["choice"] == case["choice"]:
             tolerance_cases(ctx, r, case.get("seed", 0))
             return
